@@ -313,7 +313,6 @@ func (e *Exec) doAppend(fr *Frame, st *State, x *ssa.Call) Value {
 		return e.havocValue(x.Type(), st.pc, "append")
 	}
 	et := slt.Elem()
-	es := sortOf(et)
 	if _, elemStruct := et.Underlying().(*types.Struct); elemStruct {
 		tl := e.fresh(SInt, "applen")
 		if isString(args[1].Type()) {
@@ -321,17 +320,17 @@ func (e *Exec) doAppend(fr *Frame, st *State, x *ssa.Call) Value {
 		} else {
 			e.assume(st.pc, Eq(tl, App(SInt, "sl-len", e.term(fr, st, args[1]))))
 		}
-		return e.appendAbstract(st, x, s, es, tl, nil, true)
+		return e.appendAbstract(st, x, s, et, tl, nil, true)
 	}
 	if isString(args[1].Type()) {
 		t := e.term(fr, st, args[1])
-		return e.appendAbstract(st, x, s, es, App(SInt, "slen", t), func(h *Term, j string) string {
+		return e.appendAbstract(st, x, s, et, App(SInt, "slen", t), func(h *Term, j string) string {
 			return fmt.Sprintf("(sat %s %s)", t.S, j)
 		}, false)
 	}
 	t := e.term(fr, st, args[1])
 	toff := App(SInt, "sl-off", t)
-	return e.appendAbstract(st, x, s, es, App(SInt, "sl-len", t), func(h *Term, j string) string {
+	return e.appendAbstract(st, x, s, et, App(SInt, "sl-len", t), func(h *Term, j string) string {
 		return fmt.Sprintf("(select (select %s %s) (+ %s %s))", h.S, App(SInt, "sl-id", t).S, toff.S, j)
 	}, false)
 }
@@ -339,7 +338,8 @@ func (e *Exec) doAppend(fr *Frame, st *State, x *ssa.Call) Value {
 // appendAbstract models append(s, <tl elements>) exactly (in place when the
 // capacity allows, else a fresh array); src gives the k-th appended element
 // (k from 0) as a term over the heap before the append. nil src: contents unknown.
-func (e *Exec) appendAbstract(st *State, x ssa.Instruction, s *Term, es string, tl *Term, src func(h *Term, k string) string, noContents bool) Value {
+func (e *Exec) appendAbstract(st *State, x ssa.Instruction, s *Term, et types.Type, tl *Term, src func(h *Term, k string) string, noContents bool) Value {
+	es := sortOf(et)
 	sid, soff, slen, scap := App(SInt, "sl-id", s), App(SInt, "sl-off", s), App(SInt, "sl-len", s), App(SInt, "sl-cap", s)
 	nlen := e.def(SInt, Add(slen, tl))
 	inplace := e.def(SBool, Le(nlen, scap))
@@ -352,7 +352,7 @@ func (e *Exec) appendAbstract(st *State, x ssa.Instruction, s *Term, es string, 
 	if noContents {
 		return e.def(SSl, res)
 	}
-	comp := "A_" + sortKey(es)
+	comp := arrComp(et)
 	if e.Opt.NoArgWrite && es == SObj {
 		// append in place writes into the backing array of s: it must be this activation's own
 		var rv ssa.Value
@@ -416,7 +416,7 @@ func (e *Exec) doCopy(fr *Frame, st *State, x *ssa.Call) Value {
 		return n
 	}
 	es := sortOf(et)
-	comp := "A_" + sortKey(es)
+	comp := arrComp(et)
 	if isString(args[1].Type()) {
 		st.heap[comp] = sentinel
 		return n
@@ -522,7 +522,7 @@ func (e *Exec) knownCall(fr *Frame, st *State, x *ssa.Call, callee *ssa.Function
 		base := e.term(fr, st, x.Call.Args[2])
 		e.declDigits()
 		n := App(SInt, "ndig", v, base)
-		return e.appendAbstract(st, x, b, SInt, n, func(h *Term, k string) string {
+		return e.appendAbstract(st, x, b, types.Typ[types.Uint8], n, func(h *Term, k string) string {
 			return fmt.Sprintf("(dig %s %s %s)", v.S, base.S, k)
 		}, false), true, true
 	case "(*math/big.Int).Append":
@@ -532,7 +532,7 @@ func (e *Exec) knownCall(fr *Frame, st *State, x *ssa.Call, callee *ssa.Function
 		base := e.term(fr, st, x.Call.Args[2])
 		e.declDigits()
 		n := App(SInt, "ndigbig", recv, base)
-		return e.appendAbstract(st, x, b, SInt, n, func(h *Term, k string) string {
+		return e.appendAbstract(st, x, b, types.Typ[types.Uint8], n, func(h *Term, k string) string {
 			return fmt.Sprintf("(digbig %s %s %s)", recv.S, base.S, k)
 		}, false), true, true
 	case "strings.IndexByte", "strings.LastIndexByte", "strings.IndexRune", "strings.Index", "strings.LastIndex", "strings.IndexAny", "bytes.IndexByte":
